@@ -561,5 +561,69 @@ fn parse_from_str<'a, T>(
     }
 }
 
+/// Verification hooks (see /verif/DESIGN.md): one forwarder per grammar production. Each returns
+/// the parsed value and the number of bytes consumed, or `None` if the production failed.
+#[cfg(zlink_verif)]
+#[doc(hidden)]
+pub mod verif {
+    use super::*;
+
+    fn run<'a, T>(
+        input: &'a [u8],
+        parser: impl Fn(&mut &'a [u8]) -> ModalResult<T, InputError<&'a [u8]>>,
+    ) -> Option<(T, usize)> {
+        let mut rest = input;
+        match parser(&mut rest) {
+            Ok(v) => Some((v, input.len() - rest.len())),
+            Err(_) => None,
+        }
+    }
+
+    /// `ws` production.
+    pub fn ws(input: &[u8]) -> Option<((), usize)> {
+        run(input, super::ws)
+    }
+    /// `field_name` production.
+    pub fn field_name(input: &[u8]) -> Option<(&str, usize)> {
+        run(input, super::field_name)
+    }
+    /// `type_name` production.
+    pub fn type_name(input: &[u8]) -> Option<(&str, usize)> {
+        run(input, super::type_name)
+    }
+    /// `interface_name` production.
+    pub fn interface_name(input: &[u8]) -> Option<(&str, usize)> {
+        run(input, super::interface_name)
+    }
+    /// `varlink_type` production.
+    pub fn varlink_type(input: &[u8]) -> Option<(Type<'_>, usize)> {
+        run(input, super::varlink_type)
+    }
+    /// `parameter_list` production.
+    pub fn parameter_list(input: &[u8]) -> Option<(Vec<Parameter<'_>>, usize)> {
+        run(input, super::parameter_list)
+    }
+    /// `type_def` production.
+    pub fn type_def(input: &[u8]) -> Option<(CustomType<'_>, usize)> {
+        run(input, super::type_def)
+    }
+    /// `method_def` production.
+    pub fn method_def(input: &[u8]) -> Option<(Method<'_>, usize)> {
+        run(input, super::method_def)
+    }
+    /// `error_def` production.
+    pub fn error_def(input: &[u8]) -> Option<(Error<'_>, usize)> {
+        run(input, super::error_def)
+    }
+    /// `comment_def` production.
+    pub fn comment_def(input: &[u8]) -> Option<(Comment<'_>, usize)> {
+        run(input, super::comment_def)
+    }
+    /// `interface_def` production (no trimming, no trailing-input check).
+    pub fn interface_def(input: &[u8]) -> Option<(Interface<'_>, usize)> {
+        run(input, super::interface_def)
+    }
+}
+
 #[cfg(test)]
 mod tests;
